@@ -2,7 +2,7 @@
    (Generated/Fiat*.v), meet their arithmetic specification for ALL arguments in range; and the limb-wise selection built from
    them returns exactly one of its operands. *)
 Require Import ZArith List Lia.
-From D377 Require Import Model.FiatPrelude Generated.FiatFq Generated.FiatFr Generated.FiatFp Proofs.FiatPrims Proofs.FiatLemmas.
+From D377 Require Import Base.Certs Model.FiatPrelude Generated.FiatFq Generated.FiatFr Generated.FiatFp Proofs.FiatPrims Proofs.FiatLemmas.
 Import ListNotations.
 Open Scope Z_scope.
 
@@ -23,6 +23,8 @@ Lemma fp_cmovznz_spec : cmovznz_ok fp_cmovznz_u32. Proof. prove_cmovznz fp_cmovz
 Definition fq_al := addcarryx_ok_lin _ fq_addcarryx_spec.
 Definition fq_sl := subborrowx_ok_lin _ fq_subborrowx_spec.
 Definition fq_cl := cmovznz_ok_lin _ fq_cmovznz_spec.
+Definition fr_al := addcarryx_ok_lin _ fr_addcarryx_spec.
+Definition fr_sl := subborrowx_ok_lin _ fr_subborrowx_spec.
 Definition fr_cl := cmovznz_ok_lin _ fr_cmovznz_spec.
 Definition fp_cl := cmovznz_ok_lin _ fp_cmovznz_spec.
 
@@ -54,4 +56,98 @@ Proof.
   intros Hc Ha Hb. destruct (limbs_ok_12 a Ha) as (a0&a1&a2&a3&a4&a5&a6&a7&a8&a9&a10&a11&->&?&?&?&?&?&?&?&?&?&?&?&?).
   destruct (limbs_ok_12 b Hb) as (b0&b1&b2&b3&b4&b5&b6&b7&b8&b9&b10&b11&->&?&?&?&?&?&?&?&?&?&?&?&?). clear Ha Hb.
   selectznz_tac fp_selectznz fp_cl.
+Qed.
+
+(* fq_add, as translated: for all limb values in range with both operands below the modulus, the result limbs are in range and denote
+   (a + b) mod q — the reduced sum, in particular again below the modulus. *)
+Lemma fq_add_spec a b : limbs_ok 8 a -> limbs_ok 8 b -> ev a < q -> ev b < q ->
+  limbs_ok 8 (fq_add a b) /\ ev (fq_add a b) = (ev a + ev b) mod q.
+Proof.
+  intros Ha Hb. destruct (limbs_ok_8 a Ha) as (a0&a1&a2&a3&a4&a5&a6&a7&->&?&?&?&?&?&?&?&?).
+  destruct (limbs_ok_8 b Hb) as (b0&b1&b2&b3&b4&b5&b6&b7&->&?&?&?&?&?&?&?&?). clear Ha Hb.
+  intros HA HB. cbv beta iota delta [ev fold_right] in HA, HB.
+  match goal with |- limbs_ok 8 ?oo /\ ev ?oo = ?r => pose (Q := fun o => limbs_ok 8 o /\ ev o = r); change (Q oo) end.
+  cbv beta iota delta [fq_add nth].
+  do 8 step2 fq_al. eval_closed. do 9 step2 fq_sl. do 8 step1 fq_cl.
+  subst Q; cbv beta iota delta [ev fold_right limbs_ok length].
+  repeat match goal with H : _ /\ _ |- _ => destruct H end.
+  assert (S : v + 2^32*v0 + 2^64*v1 + 2^96*v2 + 2^128*v3 + 2^160*v4 + 2^192*v5 + 2^224*v6 + 2^256*k6 =
+    (a0 + 2^32*(a1 + 2^32*(a2 + 2^32*(a3 + 2^32*(a4 + 2^32*(a5 + 2^32*(a6 + 2^32*(a7 + 2^32*0)))))))) +
+    (b0 + 2^32*(b1 + 2^32*(b2 + 2^32*(b3 + 2^32*(b4 + 2^32*(b5 + 2^32*(b6 + 2^32*(b7 + 2^32*0))))))))) by (clear HA HB; lia).
+  assert (T : v7 + 2^32*v8 + 2^64*v9 + 2^96*v10 + 2^128*v11 + 2^160*v12 + 2^192*v13 + 2^224*v14 - 2^256*k14 =
+    v + 2^32*v0 + 2^64*v1 + 2^96*v2 + 2^128*v3 + 2^160*v4 + 2^192*v5 + 2^224*v6 - q) by (clear HA HB S; unfold q; lia).
+  assert (RL : 0 <= v + 2^32*v0 + 2^64*v1 + 2^96*v2 + 2^128*v3 + 2^160*v4 + 2^192*v5 + 2^224*v6 < 2^256) by (clear HA HB S T; lia).
+  assert (RT : 0 <= v7 + 2^32*v8 + 2^64*v9 + 2^96*v10 + 2^128*v11 + 2^160*v12 + 2^192*v13 + 2^224*v14 < 2^256) by (clear HA HB S T RL; lia).
+  assert (RA : 0 <= a0 + 2^32*(a1 + 2^32*(a2 + 2^32*(a3 + 2^32*(a4 + 2^32*(a5 + 2^32*(a6 + 2^32*(a7 + 2^32*0)))))))) by (clear HA HB S T RL RT; lia).
+  assert (RB : 0 <= b0 + 2^32*(b1 + 2^32*(b2 + 2^32*(b3 + 2^32*(b4 + 2^32*(b5 + 2^32*(b6 + 2^32*(b7 + 2^32*0)))))))) by (clear HA HB S T RL RT RA; lia).
+  split. { split. reflexivity. subst. repeat constructor; destruct (k15 =? 0); lia. }
+  replace (r + 2^32*(r0 + 2^32*(r1 + 2^32*(r2 + 2^32*(r3 + 2^32*(r4 + 2^32*(r5 + 2^32*(r6 + 2^32*0))))))))
+    with (if k15 =? 0 then v7 + 2^32*v8 + 2^64*v9 + 2^96*v10 + 2^128*v11 + 2^160*v12 + 2^192*v13 + 2^224*v14
+          else v + 2^32*v0 + 2^64*v1 + 2^96*v2 + 2^128*v3 + 2^160*v4 + 2^192*v5 + 2^224*v6) by (subst; destruct (k15 =? 0); ring).
+  set (A := a0 + 2^32*(a1 + 2^32*(a2 + 2^32*(a3 + 2^32*(a4 + 2^32*(a5 + 2^32*(a6 + 2^32*(a7 + 2^32*0)))))))) in *.
+  set (B := b0 + 2^32*(b1 + 2^32*(b2 + 2^32*(b3 + 2^32*(b4 + 2^32*(b5 + 2^32*(b6 + 2^32*(b7 + 2^32*0)))))))) in *.
+  set (L := v + 2^32*v0 + 2^64*v1 + 2^96*v2 + 2^128*v3 + 2^160*v4 + 2^192*v5 + 2^224*v6) in *.
+  set (TL := v7 + 2^32*v8 + 2^64*v9 + 2^96*v10 + 2^128*v11 + 2^160*v12 + 2^192*v13 + 2^224*v14) in *.
+  clearbody A B L TL.
+  match goal with H : v15 - 2 ^ 32 * k15 = _ |- _ => rename H into EB end.
+  assert (Hq : 0 < q < 2^256) by (unfold q; lia).
+  assert (K6 : 0 <= k6 <= 1) by (split; assumption). assert (K14 : 0 <= k14 <= 1) by (split; assumption).
+  assert (K15 : 0 <= k15 <= 1) by (split; assumption). assert (V15 : 0 <= v15 < 2 ^ 32) by (split; assumption). clear - S T RL RT RA RB HA HB EB Hq K6 K14 K15 V15. unfold q in *. split_bit k15; cbn [Z.eqb].
+  - split_bit k6. all: split_bit k14.
+    + apply mod_eq_1. { clear - S T RT HA HB. lia. } clear - S T. lia.
+    + exfalso. clear - EB V15. lia.
+    + exfalso. clear - S T RT HA HB Hq. lia.
+    + apply mod_eq_1. { clear - S T RT HA HB. lia. } clear - S T. lia.
+  - split_bit k6. all: split_bit k14.
+    + exfalso. clear - EB V15. lia.
+    + apply mod_eq_0. { clear - S T RL RT Hq. lia. } clear - S T. lia.
+    + exfalso. clear - EB V15. lia.
+    + exfalso. clear - EB V15. lia.
+Qed.
+
+(* fr_add, as translated: for all limb values in range with both operands below the modulus, the result limbs are in range and denote
+   (a + b) mod r — the reduced sum, in particular again below the modulus. *)
+Lemma fr_add_spec a b : limbs_ok 8 a -> limbs_ok 8 b -> ev a < Certs.r -> ev b < Certs.r ->
+  limbs_ok 8 (fr_add a b) /\ ev (fr_add a b) = (ev a + ev b) mod Certs.r.
+Proof.
+  intros Ha Hb. destruct (limbs_ok_8 a Ha) as (a0&a1&a2&a3&a4&a5&a6&a7&->&?&?&?&?&?&?&?&?).
+  destruct (limbs_ok_8 b Hb) as (b0&b1&b2&b3&b4&b5&b6&b7&->&?&?&?&?&?&?&?&?). clear Ha Hb.
+  intros HA HB. cbv beta iota delta [ev fold_right] in HA, HB.
+  match goal with |- limbs_ok 8 ?oo /\ ev ?oo = ?r => pose (Q := fun o => limbs_ok 8 o /\ ev o = r); change (Q oo) end.
+  cbv beta iota delta [fr_add nth].
+  do 8 step2 fr_al. eval_closed. do 9 step2 fr_sl. do 8 step1 fr_cl.
+  subst Q; cbv beta iota delta [ev fold_right limbs_ok length].
+  repeat match goal with H : _ /\ _ |- _ => destruct H end.
+  assert (S : v + 2^32*v0 + 2^64*v1 + 2^96*v2 + 2^128*v3 + 2^160*v4 + 2^192*v5 + 2^224*v6 + 2^256*k6 =
+    (a0 + 2^32*(a1 + 2^32*(a2 + 2^32*(a3 + 2^32*(a4 + 2^32*(a5 + 2^32*(a6 + 2^32*(a7 + 2^32*0)))))))) +
+    (b0 + 2^32*(b1 + 2^32*(b2 + 2^32*(b3 + 2^32*(b4 + 2^32*(b5 + 2^32*(b6 + 2^32*(b7 + 2^32*0))))))))) by (clear HA HB; lia).
+  assert (T : v7 + 2^32*v8 + 2^64*v9 + 2^96*v10 + 2^128*v11 + 2^160*v12 + 2^192*v13 + 2^224*v14 - 2^256*k14 =
+    v + 2^32*v0 + 2^64*v1 + 2^96*v2 + 2^128*v3 + 2^160*v4 + 2^192*v5 + 2^224*v6 - Certs.r) by (clear HA HB S; unfold Certs.r; lia).
+  assert (RL : 0 <= v + 2^32*v0 + 2^64*v1 + 2^96*v2 + 2^128*v3 + 2^160*v4 + 2^192*v5 + 2^224*v6 < 2^256) by (clear HA HB S T; lia).
+  assert (RT : 0 <= v7 + 2^32*v8 + 2^64*v9 + 2^96*v10 + 2^128*v11 + 2^160*v12 + 2^192*v13 + 2^224*v14 < 2^256) by (clear HA HB S T RL; lia).
+  assert (RA : 0 <= a0 + 2^32*(a1 + 2^32*(a2 + 2^32*(a3 + 2^32*(a4 + 2^32*(a5 + 2^32*(a6 + 2^32*(a7 + 2^32*0)))))))) by (clear HA HB S T RL RT; lia).
+  assert (RB : 0 <= b0 + 2^32*(b1 + 2^32*(b2 + 2^32*(b3 + 2^32*(b4 + 2^32*(b5 + 2^32*(b6 + 2^32*(b7 + 2^32*0)))))))) by (clear HA HB S T RL RT RA; lia).
+  split. { split. reflexivity. subst. repeat constructor; destruct (k15 =? 0); lia. }
+  replace (r + 2^32*(r0 + 2^32*(r1 + 2^32*(r2 + 2^32*(r3 + 2^32*(r4 + 2^32*(r5 + 2^32*(r6 + 2^32*0))))))))
+    with (if k15 =? 0 then v7 + 2^32*v8 + 2^64*v9 + 2^96*v10 + 2^128*v11 + 2^160*v12 + 2^192*v13 + 2^224*v14
+          else v + 2^32*v0 + 2^64*v1 + 2^96*v2 + 2^128*v3 + 2^160*v4 + 2^192*v5 + 2^224*v6) by (subst; destruct (k15 =? 0); ring).
+  set (A := a0 + 2^32*(a1 + 2^32*(a2 + 2^32*(a3 + 2^32*(a4 + 2^32*(a5 + 2^32*(a6 + 2^32*(a7 + 2^32*0)))))))) in *.
+  set (B := b0 + 2^32*(b1 + 2^32*(b2 + 2^32*(b3 + 2^32*(b4 + 2^32*(b5 + 2^32*(b6 + 2^32*(b7 + 2^32*0)))))))) in *.
+  set (L := v + 2^32*v0 + 2^64*v1 + 2^96*v2 + 2^128*v3 + 2^160*v4 + 2^192*v5 + 2^224*v6) in *.
+  set (TL := v7 + 2^32*v8 + 2^64*v9 + 2^96*v10 + 2^128*v11 + 2^160*v12 + 2^192*v13 + 2^224*v14) in *.
+  clearbody A B L TL.
+  match goal with H : v15 - 2 ^ 32 * k15 = _ |- _ => rename H into EB end.
+  assert (Hq : 0 < Certs.r < 2^256) by (unfold Certs.r; lia).
+  assert (K6 : 0 <= k6 <= 1) by (split; assumption). assert (K14 : 0 <= k14 <= 1) by (split; assumption).
+  assert (K15 : 0 <= k15 <= 1) by (split; assumption). assert (V15 : 0 <= v15 < 2 ^ 32) by (split; assumption). clear - S T RL RT RA RB HA HB EB Hq K6 K14 K15 V15. unfold Certs.r in *. split_bit k15; cbn [Z.eqb].
+  - split_bit k6. all: split_bit k14.
+    + apply mod_eq_1. { clear - S T RT HA HB. lia. } clear - S T. lia.
+    + exfalso. clear - EB V15. lia.
+    + exfalso. clear - S T RT HA HB Hq. lia.
+    + apply mod_eq_1. { clear - S T RT HA HB. lia. } clear - S T. lia.
+  - split_bit k6. all: split_bit k14.
+    + exfalso. clear - EB V15. lia.
+    + apply mod_eq_0. { clear - S T RL RT Hq. lia. } clear - S T. lia.
+    + exfalso. clear - EB V15. lia.
+    + exfalso. clear - EB V15. lia.
 Qed.
